@@ -24,3 +24,53 @@ def compare(model_reply, res):
     if model_reply.startswith('unsupported'):
         return 'unsupported'
     return 'same' if model_reply == canon_impl(res) else 'differ'
+
+
+def request_fs(main, cwd, include_dirs, compress, roots):
+    """`asmfs` request for assembling the FILE `main` (absolute path) with the given absolute include directories;
+    `roots`: directories whose regular files (recursively) form the filesystem the model sees"""
+    import os
+    files = []
+    dps = set(['/'])
+    for r in roots:
+        for base, _, fns in os.walk(r):
+            b = base
+            while b and b != '/':
+                dps.add(b)
+                b = os.path.dirname(b)
+            for fn in fns:
+                p = os.path.join(base, fn)
+                files.append((p, open(p, 'rb').read()))
+    d = cwd
+    while d and d != '/':
+        dps.add(d)
+        d = os.path.dirname(d)
+    dps = sorted(dps)
+    req = 'asmfs %d %s p %s %d %s %d %s %d %s' % (
+        1 if compress else 0, common.hexs(cwd), common.hexs(main), len(include_dirs), ' '.join(common.hexs(x) for x in include_dirs),
+        len(files), ' '.join('%s %s' % (common.hexs(p), b.hex() or '-') for p, b in files), len(dps), ' '.join(common.hexs(x) for x in dps))
+    return ' '.join(req.split())
+
+
+def examples_check(rep, prop):
+    """the programs shipped with the repository (examples/*.asm, with the definitions directory on the include path):
+    the Lean model and the real assembler must agree, both modes; every emitted instruction chunk must be a legal encoding"""
+    import glob
+    import os
+    from harness import progs
+    asm = progs.get_asm()
+    exdir = os.path.join(common.REPO, 'examples')
+    defs = os.path.join(common.REPO, 'bronzebeard', 'definitions')
+    diffs = []
+    n = 0
+    for path in sorted(glob.glob(os.path.join(exdir, '*.asm'))):
+        for compress in (False, True):
+            res = progs.assemble_chunks(asm, path, compress, include_dirs=[defs])
+            m, = common.drv([request_fs(path, exdir, [defs], compress, [exdir, defs])])
+            v = compare(m, res)
+            n += 1
+            rep.evaluations += 1
+            rep.count('examples_%s_%s' % (res.status, v))
+            if v == 'differ':
+                diffs.append(dict(example=os.path.basename(path), compress=compress, model=m[:160], impl=canon_impl(res)[:160]))
+    return n, diffs
